@@ -2656,6 +2656,12 @@ func (s *Store) fsmSnapshot() (fSnap raft.FSMSnapshot, retErr error) {
 			s.numFullSnapshotsMetaFail.Add(1)
 			return nil, fmt.Errorf("checkpoint did not succeed during full snapshot")
 		}
+		// Everything staged so far has been checkpointed into the database file that this full
+		// snapshot captures: WAL files retained from skipped or failed incremental snapshots
+		// must not be packaged with a later incremental snapshot on top of this newer base.
+		if err := os.RemoveAll(s.walStagingDir); err != nil {
+			return nil, fmt.Errorf("failed to clear WAL staging directory for full snapshot: %w", err)
+		}
 		streamer, err := snapshot.NewSnapshotStreamer(s.db.Path())
 		if err != nil {
 			return nil, err
